@@ -46,6 +46,7 @@ type Outcome struct {
 // Prop describes one executable property.
 type Prop[S any] struct {
 	ID   string
+	Sub  string // distinguishes several scenario formats of one property (replay dispatch)
 	Rule string // generator + non-triviality rule, copied to the evidence
 	Draw func(t *rapid.T) S
 	Exec func(s S) Outcome
@@ -57,6 +58,7 @@ type Prop[S any] struct {
 
 type replayFile[S any] struct {
 	Property string `json:"property"`
+	Sub      string `json:"sub,omitempty"`
 	Version  int    `json:"version"`
 	Scenario S      `json:"scenario"`
 	Message  string `json:"message,omitempty"`
@@ -87,7 +89,7 @@ func statsFor(id, rule string) *stats {
 	defer allStatsMu.Unlock()
 	st, ok := allStats[id]
 	if !ok {
-		st = &stats{Property: id, Rule: rule, NTHashes: map[uint64]bool{}, Labels: map[string]int{}, Extra: map[string]int{}, sampleCap: 4}
+		st = &stats{Property: id, Rule: "", NTHashes: map[uint64]bool{}, Labels: map[string]int{}, Extra: map[string]int{}, sampleCap: 4}
 		allStats[id] = st
 	}
 	return st
@@ -166,8 +168,8 @@ func outDir() string {
 	return d
 }
 
-func writeReplay[S any](name string, id string, s S, msg string) {
-	b, err := json.MarshalIndent(replayFile[S]{Property: id, Version: 1, Scenario: s, Message: msg}, "", " ")
+func writeReplay[S any](name string, id, sub string, s S, msg string) {
+	b, err := json.MarshalIndent(replayFile[S]{Property: id, Sub: sub, Version: 1, Scenario: s, Message: msg}, "", " ")
 	if err != nil {
 		return
 	}
@@ -179,13 +181,18 @@ func writeReplay[S any](name string, id string, s S, msg string) {
 func Run[S any](t *testing.T, p Prop[S]) {
 	st := statsFor(p.ID, p.Rule)
 	st.mu.Lock()
-	st.Rule = p.Rule
+	if !strings.Contains(st.Rule, p.Rule) {
+		if st.Rule != "" {
+			st.Rule += " || "
+		}
+		st.Rule += p.Rule
+	}
 	st.mu.Unlock()
 	defer FlushStats()
 	rapid.Check(t, func(rt *rapid.T) {
 		s := p.Draw(rt)
 		if p.CrashLog {
-			writeReplay("cur.json", p.ID, s, "")
+			writeReplay("cur.json", p.ID, p.Sub, s, "")
 		}
 		o := p.Exec(s)
 		var enc []byte
@@ -197,7 +204,7 @@ func Run[S any](t *testing.T, p Prop[S]) {
 		}
 		st.record(hashBytes(scen()), o, scen)
 		if o.Violation != "" {
-			writeReplay("fail.json", p.ID, s, o.Violation)
+			writeReplay("fail.json", p.ID, p.Sub, s, o.Violation)
 			rt.Fatalf("VIOLATION %s: %s", p.ID, o.Violation)
 		}
 	})
@@ -213,8 +220,8 @@ func Replay[S any](t *testing.T, p Prop[S], path string) {
 	if err := json.Unmarshal(b, &rf); err != nil {
 		t.Fatalf("replay: %v", err)
 	}
-	if rf.Property != p.ID {
-		t.Fatalf("replay: file is for %s, not %s", rf.Property, p.ID)
+	if rf.Property != p.ID || rf.Sub != p.Sub {
+		t.Fatalf("replay: file is for %s/%s, not %s/%s", rf.Property, rf.Sub, p.ID, p.Sub)
 	}
 	o := p.Exec(rf.Scenario)
 	if o.Violation != "" {
@@ -232,8 +239,12 @@ func ReplayProperty(path string) string {
 	}
 	var rf struct {
 		Property string `json:"property"`
+		Sub      string `json:"sub"`
 	}
 	_ = json.Unmarshal(b, &rf)
+	if rf.Sub != "" {
+		return rf.Property + "/" + rf.Sub
+	}
 	return rf.Property
 }
 
